@@ -47,6 +47,7 @@ def run(ck, fx, cg, tier):
     _decisions(ck, T)
     _component(ck, fx)
     _fn(ck, T)
+    _own_subtrees(ck, T)
     try:
         from . import c05_vm
         c05_vm.fresh_frame_rules(ck, fx, cg, rule="R12.fresh")
@@ -369,7 +370,18 @@ def _component(ck, fx):
         if b["from_expansion"]:
             continue
         n += 1
-        if ctx["kind"] == "recv" and ctx["mut"] and ctx["method"] not in ("insert",):
+        if ctx["kind"] == "recv" and ctx["mut"] and ctx["method"] == "entry":
+            # the entry API: insert-only when the function only inserts through a *vacant* entry and reads an occupied one
+            from ..facts import walk_body as _wb
+            over = []
+            for x, _ in _wb(b):
+                if x.get("k") == "MethodCall":
+                    cd = str((x.get("callee") or {}).get("inst") or (x.get("callee") or {}).get("def") or "")
+                    if "Entry" in cd and not (("VacantEntry" in cd and x["name"] in ("insert", "key", "into_key")) or ("OccupiedEntry" in cd and x["name"] in ("get", "key"))):
+                        over.append(x["name"])
+            if over:
+                bad.append("%s .entry() with %s" % (b["path"], "/".join(sorted(set(over)))))
+        elif ctx["kind"] == "recv" and ctx["mut"] and ctx["method"] not in ("insert",):
             bad.append("%s .%s()" % (b["path"], ctx["method"]))
         if ctx["kind"] in ("assign", "addr_of_mut"):
             bad.append("%s %s" % (b["path"], ctx["kind"]))
@@ -505,3 +517,57 @@ def _fn(ck, T):
                             problems.append("parameters registered after the body is compiled")
                 ck.ob("R12.fn", key, not problems, r.at,
                       "fresh environment, [%sparameters…] registered in order, Local frame" % ("this, " if expect_this else "") if not problems else "; ".join(problems))
+
+
+def _own_subtrees(ck, T):
+    """R12.place — every tree an arm compiles in the current environment is part of the node being compiled (one of its
+    children, an element of one of its child lists, or a tree the arm builds from them). A tree fetched from anywhere
+    else — a table of function bodies, a cache — would have its variables resolved in the scope of the place of use
+    instead of the place where it was written (inlining a body at the call site captures the caller's locals)."""
+    from ..symex import _all_effs
+    n = 0
+    for (variant, keep), (ex, paths, err) in sorted(T.items()):
+        if not paths:
+            continue
+        foreign = []
+        for p in paths:
+            elems = {}
+            for e in _all_effs(p["eff"]):
+                if e["k"] == "foreach" and e.get("elem") is not None:
+                    elems[e["elem"]] = e["args"][0]
+            for e in _all_effs(p["eff"]):
+                if e["k"] != "rec":
+                    continue
+                n += 1
+                child = e["args"][0]
+                if not _from_node(child, elems, 0):
+                    foreign.append((fmt_term(child)[:80], e.get("at", "")))
+        key = "%s|keep=%s" % (variant, "T" if keep else "F")
+        ck.ob("R12.place", key, not foreign, foreign[0][1] if foreign else "",
+              "every compiled tree is part of the node" if not foreign else
+              "compiles %s, which is not a part of the %s node: its variables are resolved in the scope of this place, not of the place it was written" % (foreign[0][0], variant))
+    ck.floor("R12.place", "recursive compilations examined", n, 20)
+
+
+def _from_node(t, elems, depth):
+    if depth > 6 or not isinstance(t, tuple) or not t:
+        return False
+    if t[0] == "var":
+        return str(t[1]) == "self" or str(t[1]).startswith("self.")
+    if t in elems:
+        it = elems[t]
+        return isinstance(it, tuple) and it[:1] == ("iter",) and _from_node(it[1], elems, depth + 1)
+    if t[0] == "sym" and len(t) == 3 and t[2] == "elem":
+        # the element of a loop whose effect was merged / normalised away: look the loop up by the symbol's number
+        for k, it in elems.items():
+            if k[1] == t[1]:
+                return isinstance(it, tuple) and it[:1] == ("iter",) and _from_node(it[1], elems, depth + 1)
+    if t[0] == "ctor":
+        return True         # a tree the arm builds itself (the array rewrite); its parts are checked by R13.arrayrewrite
+    if t[0] == "lit":
+        return False
+    if t[0] == "app" and t[1] in ("field", "proj", "tuple_field", "index", "deref", "payload_of_box", "unbox", "map_of", "sorted", "init_of", "rest_of", "first_of", "last_of", "reversed", "cast", "as_ref", "as_slice"):
+        return _from_node(t[2][0], elems, depth + 1)
+    if t[0] == "app" and t[1] in ("array", "concat"):
+        return all(_from_node(x, elems, depth + 1) for x in t[2])
+    return False
